@@ -1,6 +1,7 @@
 """Rules on the command-line layer (bins) shared by C05 and C17."""
 from ..core import Site, callee_of, callee_is, callee_name, callee_matches, strip_generics, op_const, op_place, origins, data_deps, derives_from_local, callee_decl
-from ..flow import conditions, consumers
+from ..flow import conditions, consumers, switch_subject
+from ..core import switch_sites
 
 SOLVER_TRAITS = (
     "solvers::specs::SingleExtensionComputer",
@@ -85,6 +86,22 @@ def rule_single_exit(ctx):
                     ok_all = ok_all and okc
                 on_err = ok_all
             r.check(on_err, t + "|" + b.path, "not-on-err", "exit is on the Err arm of an anyhow Result", "process::exit is not guarded by the Err arm of the command result", s.loc())
+            # ... and *every* error reaches it: from the Err arm no path returns normally without passing the exit call
+            # (the exit itself, or the call of the diverging helper that contains it)
+            for body2, exit_site in ([(b, s)] if not (b.ret_ty.strip() == "!" and b.kind != "closure" and prog.callers_of(b)) else [(cs.body, cs) for cs in prog.callers_of(b)]):
+                for sw in switch_sites(body2):
+                    subj = switch_subject(body2, sw)
+                    if not subj or not subj[1]:
+                        continue
+                    ty = place_ty(body2, subj[0])
+                    if not ("core::result::Result<" in ty and "anyhow::Error" in ty):
+                        continue
+                    err_t = [bb for v, bb in sw.node["targets"] if v == "1"] or [sw.node["otherwise"]]
+                    if not (err_t[0] == exit_site.bb or body2.reaches(err_t[0], exit_site.bb, avoid={sw.bb})):
+                        continue
+                    rets = [x for x in body2.reachable if body2.blocks[x]["term"]["k"] == "return"]
+                    leak = [x for x in rets if err_t[0] == x or body2.reaches(err_t[0], x, avoid={exit_site.bb, sw.bb})]
+                    r.check(not leak, t + "|" + body2.path, "error-without-exit", "every path of the Err arm reaches the non-zero exit", "some errors of the command return normally (exit status 0) instead of reaching process::exit", exit_site.loc())
     # the library never exits
     lib_exits = [(b, s) for b in prog.lib_bodies() for s in b.calls() if callee_is(callee_of(s), "std::process::exit", "std::process::abort")]
     r.check(not lib_exits, "lib", "exit-in-lib", "no process::exit in the library", loc=(lib_exits[0][1].loc() if lib_exits else None))
